@@ -68,6 +68,14 @@ def case_loader(seed, out, spec):
             plugins.make(nm, r.sample(['dec', 'log', 'met', 'span', 'res'], r.randrange(1, 4)), order=order)
             names.append('vf.plugins.' + nm)
             expect.append((nm, order))
+            if r.chance(0.25):
+                # another plugin (a class of its own) that goes by the same name, as two packages' `Exporter` classes do:
+                # both are loaded
+                order2 = r.pick([0, 1, 2])
+                plugins.make(nm + '_twin', ['dec'], order=order2, display_name=nm)
+                names.append('vf.plugins.' + nm + '_twin')
+                expect.append((nm, order2))
+                out.count('plugins_sharing_a_name')
         elif c == 5:
             plugins.make(nm, ['dec'], order=r.randrange(3), fail_ctor=True)
             names.append('vf.plugins.' + nm)
